@@ -43,14 +43,34 @@ pub enum CacheCfg {
     Off,
     Default,
     Tiny,
+    /// capacity 0: a legal configuration in which the cache keeps nothing
+    Zero,
+    /// room for exactly one node
+    One,
+    /// only a time-to-live configured (one hour: nothing expires during a case)
+    TtlOnly,
+    /// only a time-to-idle configured (one hour)
+    TtiOnly,
+}
+
+pub fn cache_builder(cache: CacheCfg) -> Option<CacheOptionsBuilder> {
+    let hour = std::time::Duration::from_secs(3600);
+    match cache {
+        CacheCfg::Off => None,
+        CacheCfg::Default => Some(CacheOptionsBuilder::new()),
+        // weight of one node is 92 in /repo: room for three nodes
+        CacheCfg::Tiny => Some(CacheOptionsBuilder::new().max_capacity(3 * 92)),
+        CacheCfg::Zero => Some(CacheOptionsBuilder::new().max_capacity(0)),
+        CacheCfg::One => Some(CacheOptionsBuilder::new().max_capacity(92)),
+        CacheCfg::TtlOnly => Some(CacheOptionsBuilder::new().time_to_live(hour)),
+        CacheCfg::TtiOnly => Some(CacheOptionsBuilder::new().time_to_idle(hour)),
+    }
 }
 
 fn with_cache(b: HypercoreBuilder, cache: CacheCfg) -> HypercoreBuilder {
-    match cache {
-        CacheCfg::Off => b,
-        CacheCfg::Default => b.node_cache_options(CacheOptionsBuilder::new()),
-        // weight of one node is 92 in /repo: room for three nodes
-        CacheCfg::Tiny => b.node_cache_options(CacheOptionsBuilder::new().max_capacity(3 * 92)),
+    match cache_builder(cache) {
+        None => b,
+        Some(o) => b.node_cache_options(o),
     }
 }
 
